@@ -7,7 +7,7 @@ Local Open Scope R_scope.
 Lemma tie_jrot2c_p0110 p q x y : jrot2c_p0110_pc (OO:=ROps) p q x y -> jc_spec p q x y (jrot2c_p0110 (OO:=ROps) p q x y).
 Proof.
   unfold jc_spec. autounfold with gen; ops_R. cbv beta iota zeta delta [nth firstn skipn].
-  set (sq := 1 / 2 * (p - q)) in *. fold (pnorm sq x (- y)). intros [Hp [Hq [Hx Hy]]].
+  set (sq := 1 / 2 * (p - q)) in *. rewrite ?(hyp_pnorm sq x (- y)). intros [Hp [Hq [Hx Hy]]].
   assert (Ep : p = q + 2 * sq) by (unfold sq; field). clearbody sq. subst p.
   assert (Hax : ~ (x = 0 /\ - y = 0)) by tauto. destruct (d_stable sq x (- y) Hq Hax) as [Ed [Hd PP]].
   rewrite !Ed. pose proof (pnorm_sq sq x (- y)) as Sp.
